@@ -35,23 +35,32 @@ import (
 )
 
 type target struct {
-	Pkg         string            `json:"pkg"`
-	Func        string            `json:"func"` // "Name" or "Recv.Name"
-	Lean        string            `json:"lean"`
-	Group       string            `json:"group"` // the translated function goes to lean/Gengo/Gen/Code/<group>.lean: a function that leaves the subset takes down its own group only
-	DropParams  []string          `json:"drop_params"`
-	ExtraParams []string          `json:"extra_params"` // Lean binders, e.g. "(gName : Str)"
-	ExtraArgs   []string          `json:"extra_args"`   // the names of those binders, passed on to loops and callees
-	Abstract    map[string]string `json:"abstract"`     // Go expression text → Lean expression
-	RecvFields  map[string]string `json:"recv_fields"`  // receiver field → Lean name (must be in extra_params)
-	Types       map[string]string `json:"types"`        // Go named type → Lean type
-	ErrorResult bool              `json:"error_result"` // (T, error) → Option T
-	Ctors       map[string]string `json:"ctors"`        // qualified function → "pair": a constructor call becomes the tuple of its arguments
-	Fuel        map[string]string `json:"fuel"`         // loop name → Lean Nat expression
-	Funcs       map[string]string `json:"funcs"`        // called function (as written) → name of a Lean parameter of type `List Str → M Str` standing for it (its arguments are handed over as one list)
-	IterBody    bool              `json:"iter_body"`    // the function returns an iterator: translate the body of the innermost function literal with a `yield` parameter; `if !yield(x) { return }` appends x to the fragments, which are the result (a consumer that never stops early)
-	OutParams   []string          `json:"out_params"`   // parameters the function writes to (an io.Writer): threaded through as text, returned as the result
-	Props       []string          `json:"props"`
+	Pkg         string               `json:"pkg"`
+	Func        string               `json:"func"` // "Name" or "Recv.Name"
+	Lean        string               `json:"lean"`
+	Group       string               `json:"group"` // the translated function goes to lean/Gengo/Gen/Code/<group>.lean: a function that leaves the subset takes down its own group only
+	DropParams  []string             `json:"drop_params"`
+	ExtraParams []string             `json:"extra_params"` // Lean binders, e.g. "(gName : Str)"
+	ExtraArgs   []string             `json:"extra_args"`   // the names of those binders, passed on to loops and callees
+	Abstract    map[string]string    `json:"abstract"`     // Go expression text → Lean expression
+	RecvFields  map[string]string    `json:"recv_fields"`  // receiver field → Lean name (must be in extra_params)
+	Types       map[string]string    `json:"types"`        // Go named type → Lean type
+	ErrorResult bool                 `json:"error_result"` // (T, error) → Option T
+	Ctors       map[string]string    `json:"ctors"`        // qualified function → "pair": a constructor call becomes the tuple of its arguments
+	Fuel        map[string]string    `json:"fuel"`         // loop name → Lean Nat expression
+	Funcs       map[string]string    `json:"funcs"`        // called function (as written) → name of a Lean parameter of type `List Str → M Str` standing for it (its arguments are handed over as one list)
+	Recursive   bool                 `json:"recursive"`    // the function calls itself on smaller arguments that are not structurally smaller: it takes fuel first
+	Structs     map[string]structCfg `json:"structs"`      // Go struct type → Lean constructor and the order of its fields
+	Imports     []string             `json:"imports"`      // further Lean modules the group's file imports
+	IterBody    bool                 `json:"iter_body"`    // the function returns an iterator: translate the body of the innermost function literal with a `yield` parameter; `if !yield(x) { return }` appends x to the fragments, which are the result (a consumer that never stops early)
+	OutParams   []string             `json:"out_params"`   // parameters the function writes to (an io.Writer): threaded through as text, returned as the result
+	Props       []string             `json:"props"`
+}
+
+type structCfg struct {
+	Lean   string   `json:"lean"`   // the Lean type
+	Ctor   string   `json:"ctor"`   // its constructor
+	Fields []string `json:"fields"` // Go field names in constructor order
 }
 
 type config struct {
@@ -63,22 +72,35 @@ type unsupported struct{ msg string }
 func bad(format string, a ...any) { panic(unsupported{fmt.Sprintf(format, a...)}) }
 
 type fn struct {
-	t      target
-	pkg    *packages.Package
-	decl   *ast.FuncDecl
-	info   *types.Info
-	fset   *token.FileSet
-	names  map[types.Object]string
-	taken  map[string]bool
-	aux    []string // auxiliary definitions (loops), in emission order
-	loopN  int
-	tmpN   int
-	all    map[string]*target // translated functions by "pkgpath.Name"
-	resTy  string             // Lean type of the function's result
-	named  []string           // named results (Lean names)
-	leanFn string
-	outVar *types.Var // iter_body: the fragments emitted so far
-	yield  *types.Var
+	t          target
+	pkg        *packages.Package
+	decl       *ast.FuncDecl
+	info       *types.Info
+	fset       *token.FileSet
+	names      map[types.Object]string
+	taken      map[string]bool
+	aux        []string // auxiliary definitions (loops), in emission order
+	loopN      int
+	tmpN       int
+	all        map[string]*target // translated functions by "pkgpath.Name"
+	resTy      string             // Lean type of the function's result
+	named      []string           // named results (Lean names)
+	leanFn     string
+	outVar     *types.Var // iter_body: the fragments emitted so far
+	yield      *types.Var
+	curClosure *closure
+	inAux      bool                    // compiling the body of a loop or closure definition (self-calls go through the self__ parameter)
+	closures   map[*types.Var]*closure // local function literals
+}
+
+// closure: `name := func(params) error { … }` — an auxiliary definition over the variables it captures; it returns the new
+// values of the captured variables it assigns, or none for a non-nil error
+type closure struct {
+	name   string
+	lit    *ast.FuncLit
+	ro     []*types.Var
+	state  []*types.Var
+	params []*types.Var
 }
 
 var leanKeywords = map[string]bool{"prefix": true, "end": true, "from": true, "at": true, "fun": true, "do": true, "then": true, "else": true, "if": true,
@@ -124,6 +146,9 @@ func (f *fn) leanType(t types.Type) string {
 	if n, ok := t.(*types.Named); ok {
 		if lt, ok := f.t.Types[n.Obj().Name()]; ok {
 			return lt
+		}
+		if sc, ok := f.t.Structs[n.Obj().Name()]; ok {
+			return sc.Lean
 		}
 		q := n.Obj().Pkg().Path() + "." + n.Obj().Name()
 		switch q {
@@ -171,8 +196,89 @@ func (f *fn) zero(t types.Type) string {
 	case strings.HasPrefix(lt, "(Option "):
 		return "(none : " + lt + ")"
 	}
+	if p, ok := t.(*types.Pointer); ok {
+		t = p.Elem()
+	}
+	if n, ok := t.(*types.Named); ok {
+		if sc, ok := f.t.Structs[n.Obj().Name()]; ok {
+			if st, ok := n.Underlying().(*types.Struct); ok {
+				return f.structLit(sc, st, map[string]string{})
+			}
+		}
+	}
 	bad("no zero value for %s", t)
 	return ""
+}
+
+func (f *fn) structOf(t types.Type) (structCfg, *types.Struct, bool) {
+	if p, ok := t.(*types.Pointer); ok {
+		t = p.Elem()
+	}
+	if n, ok := t.(*types.Named); ok {
+		if sc, ok := f.t.Structs[n.Obj().Name()]; ok {
+			if st, ok := n.Underlying().(*types.Struct); ok {
+				return sc, st, true
+			}
+		}
+	}
+	return structCfg{}, nil, false
+}
+
+// structLit: the constructor applied to the given fields, the others zero
+func (f *fn) structLit(sc structCfg, st *types.Struct, vals map[string]string) string {
+	var args []string
+	for _, name := range sc.Fields {
+		if v, ok := vals[name]; ok {
+			args = append(args, v)
+			continue
+		}
+		found := false
+		for i := 0; i < st.NumFields(); i++ {
+			if st.Field(i).Name() == name {
+				args = append(args, f.zero(st.Field(i).Type()))
+				found = true
+			}
+		}
+		if !found {
+			bad("struct field %s", name)
+		}
+	}
+	return "(" + sc.Ctor + " " + strings.Join(args, " ") + ")"
+}
+
+// fieldGet: `x.F` as a match on the constructor
+func (f *fn) fieldGet(sc structCfg, x, field string) string {
+	var pats []string
+	hit := ""
+	for i, name := range sc.Fields {
+		v := fmt.Sprintf("f%d__", i)
+		if name == field {
+			hit = v
+			pats = append(pats, v)
+		} else {
+			pats = append(pats, "_")
+		}
+	}
+	if hit == "" {
+		bad("field %s", field)
+	}
+	return "(match " + x + " with | " + sc.Ctor + " " + strings.Join(pats, " ") + " => " + hit + ")"
+}
+
+// fieldSet: the struct with field F replaced
+func (f *fn) fieldSet(sc structCfg, x, field, val string) string {
+	var pats, args []string
+	for i, name := range sc.Fields {
+		v := fmt.Sprintf("f%d__", i)
+		if name == field {
+			pats = append(pats, "_")
+			args = append(args, val)
+		} else {
+			pats = append(pats, v)
+			args = append(args, v)
+		}
+	}
+	return "(match " + x + " with | " + sc.Ctor + " " + strings.Join(pats, " ") + " => " + sc.Ctor + " " + strings.Join(args, " ") + ")"
 }
 
 func charLit(r rune) string {
@@ -308,6 +414,11 @@ func (f *fn) expr(e ast.Expr, pre *[]string) string {
 			if cl, ok := x.X.(*ast.CompositeLit); ok && isBuilder(f.info.TypeOf(cl)) {
 				return "([] : Str)"
 			}
+			if cl, ok := x.X.(*ast.CompositeLit); ok {
+				if _, _, ok := f.structOf(f.info.TypeOf(cl)); ok {
+					return f.expr(cl, pre) // a pointer to a struct is the struct: no aliasing in the translated subset
+				}
+			}
 		}
 		bad("unary %s", x.Op)
 	case *ast.BinaryExpr:
@@ -381,6 +492,17 @@ func (f *fn) expr(e ast.Expr, pre *[]string) string {
 		if isBuilder(t) {
 			return "([] : Str)"
 		}
+		if sc, st, ok := f.structOf(t); ok {
+			vals := map[string]string{}
+			for _, el := range x.Elts {
+				kv, ok := el.(*ast.KeyValueExpr)
+				if !ok {
+					bad("positional struct literal")
+				}
+				vals[kv.Key.(*ast.Ident).Name] = f.expr(kv.Value, pre)
+			}
+			return f.structLit(sc, st, vals)
+		}
 		switch t.Underlying().(type) {
 		case *types.Slice:
 			var el []string
@@ -427,6 +549,11 @@ func (f *fn) expr(e ast.Expr, pre *[]string) string {
 		*pre = append(*pre, "let "+t+" : "+f.leanType(f.info.TypeOf(e))+" ← Go.slice "+a+" "+lo+" "+hi)
 		return t
 	case *ast.SelectorExpr:
+		if sc, _, ok := f.structOf(f.info.TypeOf(x.X)); ok {
+			if _, isField := f.info.Selections[x]; isField {
+				return f.fieldGet(sc, f.expr(x.X, pre), x.Sel.Name)
+			}
+		}
 		if id, ok := x.X.(*ast.Ident); ok && f.decl.Recv != nil && len(f.decl.Recv.List[0].Names) == 1 && id.Name == f.decl.Recv.List[0].Names[0].Name {
 			if n, ok := f.t.RecvFields[x.Sel.Name]; ok {
 				return n
@@ -438,6 +565,26 @@ func (f *fn) expr(e ast.Expr, pre *[]string) string {
 	}
 	bad("expression %s (%T) at %s", f.text(e), e, f.fset.Position(e.Pos()))
 	return ""
+}
+
+// selfRef: how a recursive function refers to itself — with the remaining fuel in its own body, through the parameter
+// `self__` inside the auxiliary definitions (loops, closures)
+func (f *fn) selfRef() string {
+	if f.inAux {
+		return "self__"
+	}
+	return "(" + f.leanFn + " " + strings.Join(append(append([]string{}, f.t.ExtraArgs...), "fuel__"), " ") + ")"
+}
+
+func (f *fn) selfType() string {
+	sig := f.info.Defs[f.decl.Name].(*types.Func).Type().(*types.Signature)
+	var ts []string
+	for i := 0; i < sig.Params().Len(); i++ {
+		if !f.dropped(sig.Params().At(i)) {
+			ts = append(ts, f.leanType(sig.Params().At(i).Type()))
+		}
+	}
+	return strings.Join(append(ts, "M "+f.resTy), " → ")
 }
 
 func (f *fn) args(call *ast.CallExpr, pre *[]string) []string {
@@ -545,8 +692,17 @@ func (f *fn) call(x *ast.CallExpr, pre *[]string) string {
 	if f.t.Ctors[name] == "pair" {
 		return "(" + strings.Join(f.args(x, pre), ", ") + ")"
 	}
+	if fo != nil && f.t.Recursive && fo == f.info.Defs[f.decl.Name] {
+		a := f.args(x, pre)
+		tmp := f.tmp()
+		*pre = append(*pre, "let "+tmp+" : "+f.resTy+" ← "+f.selfRef()+" "+strings.Join(a, " "))
+		return tmp
+	}
 	if fo != nil {
 		if t, ok := f.all[name]; ok {
+			if t.Recursive {
+				bad("call of the recursive translated function %s", name)
+			}
 			a := f.args(x, pre)
 			if x.Ellipsis.IsValid() {
 				bad("spread call of a translated function")
@@ -741,6 +897,11 @@ func (f *fn) rootVar(e ast.Expr) *types.Var {
 			e = x.X
 		case *ast.ParenExpr:
 			e = x.X
+		case *ast.SelectorExpr:
+			if _, _, ok := f.structOf(f.info.TypeOf(x.X)); !ok {
+				return nil
+			}
+			e = x.X
 		default:
 			return nil
 		}
@@ -787,7 +948,18 @@ func (f *fn) assigned(outer token.Pos, nodes ...ast.Node) []*types.Var {
 					}
 				}
 			case *ast.FuncLit:
-				bad("function literal")
+				return false
+			}
+			if call, ok := m.(*ast.CallExpr); ok {
+				if id, ok := call.Fun.(*ast.Ident); ok {
+					if v, ok := f.info.Uses[id].(*types.Var); ok {
+						if cl := f.closures[v]; cl != nil {
+							for _, sv := range cl.state {
+								add(sv)
+							}
+						}
+					}
+				}
 			}
 			return true
 		})
@@ -804,6 +976,16 @@ func (f *fn) freeVars(outer token.Pos, n ast.Node) []*types.Var {
 		if id, ok := m.(*ast.Ident); ok {
 			if v, ok := f.info.Uses[id].(*types.Var); ok && !v.IsField() && v.Pkg() != nil && v.Parent() != v.Pkg().Scope() && v.Pos() < outer && !seen[v] {
 				if f.dropped(v) || v == f.yield {
+					return true
+				}
+				if cl := f.closures[v]; cl != nil {
+					// calling a closure needs what it captures
+					for _, cv := range append(append([]*types.Var{}, cl.ro...), cl.state...) {
+						if !seen[cv] && cv.Pos() < outer {
+							seen[cv] = true
+							out = append(out, cv)
+						}
+					}
 					return true
 				}
 				seen[v] = true
@@ -893,6 +1075,13 @@ func (f *fn) assign(lhs ast.Expr, rhs string, out *[]string) {
 			return
 		}
 		bad("assignment to %s", f.text(lhs))
+	case *ast.SelectorExpr:
+		if sc, _, ok := f.structOf(f.info.TypeOf(l.X)); ok {
+			x := f.expr(l.X, out)
+			f.assign(l.X, f.fieldSet(sc, x, l.Sel.Name, rhs), out)
+			return
+		}
+		bad("assignment to %s", f.text(lhs))
 	default:
 		bad("assignment to %s", f.text(lhs))
 	}
@@ -934,6 +1123,13 @@ func (f *fn) stmts(list []ast.Stmt, k konts) []string {
 				}
 			}
 		case *ast.AssignStmt:
+			if lit, ok := f.closureDef(x); ok {
+				out = append(out, lit...) // (nothing: the closure becomes an auxiliary definition)
+				break
+			}
+			if lines, ok := f.errPropagation(x, rest, k, &out); ok {
+				return append(out, lines...)
+			}
 			switch {
 			case x.Tok == token.ADD_ASSIGN || x.Tok == token.SUB_ASSIGN:
 				op := " + "
@@ -1037,6 +1233,9 @@ func (f *fn) stmts(list []ast.Stmt, k konts) []string {
 		case *ast.SwitchStmt:
 			return append(out, f.stmts(append([]ast.Stmt{f.switchToIf(x)}, rest...), k)...)
 		case *ast.IfStmt:
+			if lines, ok := f.closureCallCheck(x, rest, k, &out); ok {
+				return append(out, lines...)
+			}
 			if frag, ok := f.yieldStmt(x, &out); ok {
 				n := f.nameOf(f.outVar)
 				out = append(out, "let "+n+" : (List Str) := ("+n+" ++ ["+frag+"])")
@@ -1123,6 +1322,165 @@ func (f *fn) stmts(list []ast.Stmt, k konts) []string {
 		}
 	}
 	return append(out, k.fall)
+}
+
+func isNilIdent(e ast.Expr) bool {
+	id, ok := e.(*ast.Ident)
+	return ok && id.Name == "nil"
+}
+
+// errCheck: is `s` the statement `if <errVar> != nil { return … }` ?
+func (f *fn) errCheck(s ast.Stmt, errVar types.Object) (*ast.IfStmt, bool) {
+	x, ok := s.(*ast.IfStmt)
+	if !ok || x.Init != nil || x.Else != nil || len(x.Body.List) != 1 {
+		return nil, false
+	}
+	if _, ok := x.Body.List[0].(*ast.ReturnStmt); !ok {
+		return nil, false
+	}
+	cmp, ok := x.Cond.(*ast.BinaryExpr)
+	if !ok || cmp.Op != token.NEQ || !isNilIdent(cmp.Y) {
+		return nil, false
+	}
+	id, ok := cmp.X.(*ast.Ident)
+	if !ok || f.info.Uses[id] != errVar {
+		return nil, false
+	}
+	return x, true
+}
+
+// errPropagation: `v, err := g(…)` (g translated with error_result, or the function itself) directly followed by
+// `if err != nil { return … }` — a match on the Option the call yields
+func (f *fn) errPropagation(x *ast.AssignStmt, rest []ast.Stmt, k konts, out *[]string) ([]string, bool) {
+	if len(x.Lhs) != 2 || len(x.Rhs) != 1 || len(rest) == 0 || (x.Tok != token.DEFINE && x.Tok != token.ASSIGN) {
+		return nil, false
+	}
+	call, ok := x.Rhs[0].(*ast.CallExpr)
+	if !ok {
+		return nil, false
+	}
+	name, fo := f.callee(call)
+	isSelf := fo != nil && f.t.Recursive && fo == f.info.Defs[f.decl.Name]
+	if t, ok := f.all[name]; !(isSelf && f.t.ErrorResult) && !(ok && t.ErrorResult) {
+		return nil, false
+	}
+	errId, ok := x.Lhs[1].(*ast.Ident)
+	if !ok {
+		return nil, false
+	}
+	errObj := f.info.Defs[errId]
+	if errObj == nil {
+		errObj = f.info.Uses[errId]
+	}
+	chk, ok := f.errCheck(rest[0], errObj)
+	if !ok {
+		return nil, false
+	}
+	tmp := f.expr(call, out)
+	pat := "_"
+	if id, ok := x.Lhs[0].(*ast.Ident); ok && id.Name != "_" {
+		obj := f.info.Defs[id]
+		if obj == nil {
+			obj = f.info.Uses[id]
+		}
+		pat = f.nameOf(obj)
+	}
+	lines := []string{"match " + tmp + " with", "| none => do"}
+	lines = append(lines, ind(f.stmts(chk.Body.List, k), 4)...)
+	lines = append(lines, "| some "+pat+" => do")
+	lines = append(lines, ind(f.stmts(rest[1:], k), 4)...)
+	return lines, true
+}
+
+// closureDef: `name := func(params) error { … }` becomes an auxiliary definition
+func (f *fn) closureDef(x *ast.AssignStmt) ([]string, bool) {
+	if x.Tok != token.DEFINE || len(x.Lhs) != 1 || len(x.Rhs) != 1 {
+		return nil, false
+	}
+	lit, ok := x.Rhs[0].(*ast.FuncLit)
+	if !ok {
+		return nil, false
+	}
+	v := f.info.Defs[x.Lhs[0].(*ast.Ident)].(*types.Var)
+	sig := v.Type().(*types.Signature)
+	if sig.Results().Len() != 1 || sig.Results().At(0).Type().String() != "error" {
+		bad("closure %s: only closures returning an error are translated", v.Name())
+	}
+	cl := &closure{name: f.leanFn + "." + v.Name(), lit: lit}
+	for i := 0; i < sig.Params().Len(); i++ {
+		cl.params = append(cl.params, sig.Params().At(i))
+	}
+	cl.state = f.assigned(lit.Pos(), lit.Body)
+	isState := map[*types.Var]bool{}
+	for _, sv := range cl.state {
+		isState[sv] = true
+	}
+	for _, fv := range f.freeVars(lit.Pos(), lit.Body) {
+		if !isState[fv] {
+			cl.ro = append(cl.ro, fv)
+		}
+	}
+	if f.closures == nil {
+		f.closures = map[*types.Var]*closure{}
+	}
+	f.closures[v] = cl
+	var binders []string
+	binders = append(binders, f.t.ExtraParams...)
+	if f.t.Recursive {
+		binders = append(binders, "(self__ : "+f.selfType()+")")
+	}
+	for _, b := range append(append(append([]*types.Var{}, cl.ro...), cl.state...), cl.params...) {
+		binders = append(binders, f.binder(b))
+	}
+	saveAux, saveCl := f.inAux, f.curClosure
+	f.inAux, f.curClosure = true, cl
+	body := f.stmts(lit.Body.List, konts{fall: "pure (some " + f.tuple(cl.state) + ")", ret: func(v string) string { return "pure " + v }})
+	f.inAux, f.curClosure = saveAux, saveCl
+	def := []string{"def " + cl.name + " " + strings.Join(binders, " ") + " : M (Option " + f.tupleType(cl.state) + ") := do"}
+	def = append(def, ind(body, 2)...)
+	f.aux = append(f.aux, strings.Join(def, "\n"))
+	return nil, true
+}
+
+// closureCallCheck: `if err := name(args); err != nil { return … }` for a closure `name`
+func (f *fn) closureCallCheck(x *ast.IfStmt, rest []ast.Stmt, k konts, out *[]string) ([]string, bool) {
+	as, ok := x.Init.(*ast.AssignStmt)
+	if !ok || as.Tok != token.DEFINE || len(as.Lhs) != 1 || len(as.Rhs) != 1 || x.Else != nil {
+		return nil, false
+	}
+	call, ok := as.Rhs[0].(*ast.CallExpr)
+	if !ok {
+		return nil, false
+	}
+	id, ok := call.Fun.(*ast.Ident)
+	if !ok {
+		return nil, false
+	}
+	cv, _ := f.info.Uses[id].(*types.Var)
+	cl := f.closures[cv]
+	if cl == nil {
+		return nil, false
+	}
+	errObj := f.info.Defs[as.Lhs[0].(*ast.Ident)]
+	inner := &ast.IfStmt{If: x.If, Cond: x.Cond, Body: x.Body}
+	chk, ok := f.errCheck(inner, errObj)
+	if !ok {
+		return nil, false
+	}
+	var args []string
+	args = append(args, f.t.ExtraArgs...)
+	if f.t.Recursive {
+		args = append(args, f.selfRef())
+	}
+	for _, v := range append(append([]*types.Var{}, cl.ro...), cl.state...) {
+		args = append(args, f.nameOf(v))
+	}
+	args = append(args, f.args(call, out)...)
+	lines := []string{"match ← " + cl.name + " " + strings.Join(args, " ") + " with", "| none => do"}
+	lines = append(lines, ind(f.stmts(chk.Body.List, k), 4)...)
+	lines = append(lines, "| some "+f.tuple(cl.state)+" => do")
+	lines = append(lines, ind(f.stmts(rest, k), 4)...)
+	return lines, true
 }
 
 // yieldStmt: `if !yield(x) { return }` — hand the consumer one fragment, stop if it has had enough
@@ -1225,6 +1583,16 @@ func (f *fn) stmts1(s ast.Stmt) []string {
 func (f *fn) ret(x *ast.ReturnStmt, k konts, out *[]string) []string {
 	var pre []string
 	var v string
+	if f.curClosure != nil {
+		// a closure returning an error: nil hands back the captured variables it assigned, anything else is the failure
+		if len(x.Results) != 1 {
+			bad("closure return %s", f.text(x))
+		}
+		if id, ok := x.Results[0].(*ast.Ident); ok && id.Name == "nil" {
+			return []string{"pure (some " + f.tuple(f.curClosure.state) + ")"}
+		}
+		return []string{"pure none"}
+	}
 	switch {
 	case len(x.Results) == 0:
 		v = f.namedTuple()
@@ -1418,6 +1786,12 @@ func (f *fn) rangeLoop(x *ast.RangeStmt, rest []ast.Stmt, k konts) ([]string, bo
 	var binders, roArgs []string
 	binders = append(binders, f.t.ExtraParams...)
 	roArgs = append(roArgs, f.t.ExtraArgs...)
+	selfAtCall := ""
+	if f.t.Recursive {
+		binders = append(binders, "(self__ : "+f.selfType()+")")
+		roArgs = append(roArgs, "self__")
+		selfAtCall = f.selfRef()
+	}
 	for _, v := range ro {
 		binders = append(binders, f.binder(v))
 		roArgs = append(roArgs, f.nameOf(v))
@@ -1460,7 +1834,10 @@ func (f *fn) rangeLoop(x *ast.RangeStmt, rest []ast.Stmt, k konts) ([]string, bo
 	}
 	rec := name + " " + strings.Join(recArgs, " ")
 	kk := konts{fall: rec, cont: rec, brk: nextOf(f.tuple(state)), ret: func(v string) string { return "pure (.ret " + v + ")" }}
+	saveAux := f.inAux
+	f.inAux = true
 	body := f.stmts(x.Body.List, kk)
+	f.inAux = saveAux
 	sig := "def " + name + " " + strings.Join(binders, " ") + " : List " + elemTy
 	for _, t := range stTypes {
 		sig += " → " + t
@@ -1473,6 +1850,11 @@ func (f *fn) rangeLoop(x *ast.RangeStmt, rest []ast.Stmt, k konts) ([]string, bo
 	def = append(def, ind(body, 4)...)
 	f.aux = append(f.aux, strings.Join(def, "\n"))
 	callArgs := append([]string{}, roArgs...)
+	for i := range callArgs {
+		if callArgs[i] == "self__" && f.t.Recursive {
+			callArgs[i] = selfAtCall
+		}
+	}
 	callArgs = append(callArgs, list)
 	for i, n := range stNames {
 		if withIdx && i == 0 {
@@ -1535,6 +1917,12 @@ func (f *fn) forLoop(x *ast.ForStmt, rest []ast.Stmt, k konts) ([]string, bool) 
 	var binders, roArgs []string
 	binders = append(binders, f.t.ExtraParams...)
 	roArgs = append(roArgs, f.t.ExtraArgs...)
+	selfAtCall := ""
+	if f.t.Recursive {
+		binders = append(binders, "(self__ : "+f.selfType()+")")
+		roArgs = append(roArgs, "self__")
+		selfAtCall = f.selfRef()
+	}
 	for _, v := range ro {
 		binders = append(binders, f.binder(v))
 		roArgs = append(roArgs, f.nameOf(v))
@@ -1554,7 +1942,10 @@ func (f *fn) forLoop(x *ast.ForStmt, rest []ast.Stmt, k konts) ([]string, bool) 
 	// `continue` and falling off the body both run the post statement and go round again
 	again := append(append([]string{}, post...), rec)
 	kk := konts{fall: "\x01", cont: "\x01", brk: nextOf(f.tuple(state)), ret: func(v string) string { return "pure (.ret " + v + ")" }}
+	saveAux := f.inAux
+	f.inAux = true
 	raw := f.stmts(x.Body.List, kk)
+	f.inAux = saveAux
 	var body []string
 	for _, l := range raw {
 		if strings.TrimLeft(l, " ") == "\x01" {
@@ -1580,7 +1971,13 @@ func (f *fn) forLoop(x *ast.ForStmt, rest []ast.Stmt, k konts) ([]string, bool) 
 	def = append(def, ind(body, 6)...)
 	def = append(def, "    else", "      "+nextOf(f.tuple(state)))
 	f.aux = append(f.aux, strings.Join(def, "\n"))
-	callArgs := append(append(append([]string{}, roArgs...), "("+fuel+")"), stNames...)
+	roAtCall := append([]string{}, roArgs...)
+	for i := range roAtCall {
+		if roAtCall[i] == "self__" && f.t.Recursive {
+			roAtCall[i] = selfAtCall
+		}
+	}
+	callArgs := append(append(roAtCall, "("+fuel+")"), stNames...)
 	lines, term := f.finishLoop(name, hasRet, state, strings.Join(callArgs, " "), rest, k)
 	return append(pre, lines...), term
 }
@@ -1655,8 +2052,30 @@ func (f *fn) translate() string {
 		k = konts{fall: "pure " + tup, ret: func(v string) string { return "pure " + tup }}
 	}
 	body := append(head, f.stmts(bodyList, k)...)
-	def := []string{"def " + f.leanFn + " " + strings.Join(binders, " ") + " : M " + f.resTy + " := do"}
-	def = append(def, ind(body, 2)...)
+	var def []string
+	if f.t.Recursive {
+		// general recursion: fuel first; running out of it is Err.fuel
+		var tys, names []string
+		for i := 0; i < sig.Params().Len(); i++ {
+			v := sig.Params().At(i)
+			if f.dropped(v) {
+				continue
+			}
+			tys = append(tys, f.leanType(v.Type()))
+			names = append(names, f.nameOf(v))
+		}
+		wild := make([]string, len(names))
+		for i := range wild {
+			wild[i] = "_"
+		}
+		def = []string{"def " + f.leanFn + " " + strings.Join(f.t.ExtraParams, " ") + " : Nat → " + strings.Join(append(tys, "M "+f.resTy), " → "),
+			"  | " + strings.Join(append([]string{"0"}, wild...), ", ") + " => throw .fuel",
+			"  | " + strings.Join(append([]string{"fuel__ + 1"}, names...), ", ") + " => do"}
+		def = append(def, ind(body, 4)...)
+	} else {
+		def = []string{"def " + f.leanFn + " " + strings.Join(binders, " ") + " : M " + f.resTy + " := do"}
+		def = append(def, ind(body, 2)...)
+	}
 	pos := f.fset.Position(f.decl.Pos())
 	doc := fmt.Sprintf("/-- translated from `%s` (%s) -/", f.t.Func, relPath(pos.Filename))
 	return strings.Join(append(f.aux, doc+"\n"+strings.Join(def, "\n")), "\n\n")
@@ -1750,8 +2169,28 @@ func main() {
 		File  string   `json:"file,omitempty"`
 	}
 	var reports []rep
+	groupImports := map[string][]string{}
+	for _, t := range cfg.Targets {
+		g := t.Group
+		if g == "" {
+			g = "Misc"
+		}
+		for _, im := range t.Imports {
+			dup := false
+			for _, have := range groupImports[g] {
+				dup = dup || have == im
+			}
+			if !dup {
+				groupImports[g] = append(groupImports[g], im)
+			}
+		}
+	}
 	header := func(group string) []string {
-		return []string{"import Gengo.Model.GoRt", "/-! REGENERATED by harness/cmd/go2lean from the Go sources of the checkout under test — do not edit.",
+		var extra string
+		for _, im := range groupImports[group] {
+			extra += "import " + im + "\n"
+		}
+		return []string{extra + "import Gengo.Model.GoRt", "/-! REGENERATED by harness/cmd/go2lean from the Go sources of the checkout under test — do not edit.",
 			"Group " + group + ": every definition is the translation of one Go function (named in its doc comment);",
 			"`Gengo/Props/Tr*.lean` proves it equal to the hand-written model. -/", "namespace Gengo.Code", "open Gengo Gengo.Go", "set_option linter.unusedVariables false", ""}
 	}
